@@ -38,7 +38,10 @@ var verifState struct {
 	w     *bufio.Writer
 	conn  net.Conn
 	gates map[string]*verifGate
-	tuns  []*Tunnel
+	// byConn maps a client transport or a backend connection to its tunnel. It is
+	// filled by hooks that run on the goroutine that just assigned the field, so
+	// no tunnel field is ever read from a foreign goroutine here.
+	byConn map[interface{}]*Tunnel
 }
 
 type verifCmd struct {
@@ -62,6 +65,7 @@ func init() {
 	verifState.conn = conn
 	verifState.w = bufio.NewWriter(conn)
 	verifState.gates = make(map[string]*verifGate)
+	verifState.byConn = make(map[interface{}]*Tunnel)
 	verifState.on = true
 	go verifCommands(conn)
 }
@@ -216,13 +220,7 @@ func verifHook(point string, t *Tunnel, args ...interface{}) {
 		switch args[0].(type) {
 		case int, string, bool, error, nil:
 		default:
-			for _, k := range verifState.tuns {
-				if (k.transportIn != nil && interface{}(k.transportIn) == args[0]) ||
-					(k.rwc != nil && interface{}(k.rwc) == args[0]) {
-					t = k
-					break
-				}
-			}
+			t = verifState.byConn[args[0]]
 			args = args[1:]
 		}
 	}
@@ -231,18 +229,22 @@ func verifHook(point string, t *Tunnel, args ...interface{}) {
 		cid = t.RDGId
 		ev["cid"] = cid
 		ev["tun"] = fmt.Sprintf("%p", t)
-		known := false
-		for _, k := range verifState.tuns {
-			if k == t {
-				known = true
-				break
+		switch point {
+		case "ws.open", "legacy.in.attached":
+			verifState.byConn[interface{}(t.transportIn)] = t
+		case "proc.dialed":
+			if t.rwc != nil {
+				verifState.byConn[interface{}(t.rwc)] = t
+			}
+		case "unreg.end":
+			for k, v := range verifState.byConn {
+				if v == t {
+					delete(verifState.byConn, k)
+				}
 			}
 		}
-		if !known {
-			verifState.tuns = append(verifState.tuns, t)
-			if len(verifState.tuns) > 4096 {
-				verifState.tuns = verifState.tuns[len(verifState.tuns)-2048:]
-			}
+		if len(verifState.byConn) > 20000 {
+			verifState.byConn = make(map[interface{}]*Tunnel)
 		}
 	}
 	if len(args) > 0 {
